@@ -176,6 +176,25 @@ func (o *Oracle) checkIsolation(inc *Inc, term uint64) {
 		is.termAt[i] = term
 	}
 	if term > is.termAt[i] {
+		// a term it was told by a server it can still talk to (a companion that came over from the majority
+		// side) is learned, not inflated: only a term no other server has is of its own making (correction 43)
+		var other uint64
+		for _, n := range w.nodes {
+			if n == inc.node {
+				continue
+			}
+			if t := n.disk.kvInt["CurrentTerm"]; t > other {
+				other = t
+			}
+			if n.inc != nil && n.inc.alive && n.inc.r != nil && n.inc.r.CurrentTerm() > other {
+				other = n.inc.r.CurrentTerm()
+			}
+		}
+		if term <= other {
+			w.stats.probe("isolated_server_learned_a_term_from_a_companion")
+			is.termAt[i] = term
+			return
+		}
 		w.violate("C14", "C14/term-inflated-while-isolated", "%s cannot reach a quorum since %.0fms yet raised its term from %d to %d (pre-vote enabled)",
 			inc.tag, float64(is.since[i])/1e6, is.termAt[i], term)
 		is.termAt[i] = term
